@@ -162,6 +162,9 @@ def path_state(cp, *, lines=None, printouts=None, errors=None):
 _HARNESS_HOME = os.path.dirname(os.path.abspath(__file__))
 
 
+SEAM_FUNCS = {"opener", "torn", "w", "w2", "write", "_gate", "sim_listdir"}
+
+
 def in_repo(tb_or_exc):
     """True when the exception originates in the csvpath package under test:
     walking the traceback inwards, the innermost frame that belongs to either
@@ -174,7 +177,9 @@ def in_repo(tb_or_exc):
         if fn.startswith(CSVPATH_HOME):
             owner = "repo"
         elif fn.startswith(_HARNESS_HOME):
-            owner = "harness"
+            # (fault seams stand in for open()/os.*/shutil.*: an error raised from inside them belongs to their caller)
+            if tb.tb_frame.f_code.co_name not in SEAM_FUNCS:
+                owner = "harness"
         tb = tb.tb_next
     return owner == "repo"
 
